@@ -276,4 +276,4 @@ impl<A: LoadableAsset + SeekableAsset> TapeImpl for Tap<A> {
 
 #[cfg(kani)]
 #[path = "/verif/hooks/core/tap.rs"]
-mod verif_hooks;
+pub(crate) mod verif_hooks;
